@@ -267,6 +267,19 @@ def check_cases(ctx, cases):
             continue
         man = git_objects.directory_git_object(d)
         gitfmt.dict_form_agrees(ctx, case, git_objects.directory_git_object, d, man)
+        # copies of the object (pickle: what another process or a queue hands over; deepcopy) are the same
+        # directory: same manifest, same recomputed id, still passing the integrity check
+        import copy as _cp
+        import pickle as _pk
+
+        for how, mk in (("pickle", lambda x: _pk.loads(_pk.dumps(x))), ("deepcopy", _cp.deepcopy)):
+            try:
+                dc_ = mk(d)
+                if git_objects.directory_git_object(dc_) != man or dc_.compute_hash() != d.id:
+                    ctx.fail(case, f"a {how} copy of the directory gets another manifest or id", "copy-differs:" + how)
+                dc_.check()
+            except Exception as e:
+                ctx.fail(case, f"a {how} copy of the directory cannot be formatted or checked: {type(e).__name__}", "copy-differs:" + how)
         rec = {"manifest": man, "id": d.id, "swhid": str(d.swhid())}
         impl.append(rec)
         reqs.append({"op": "dir_manifest", "entries": case["entries"]})
